@@ -57,11 +57,12 @@ bool lib_hash_update(zckCtx *zck, zckHash *hash, const char *message, const size
 V_REQUIRES(zck == NULL || __CPROVER_rw_ok(zck, sizeof(*zck)))
 V_REQUIRES(LIBSHA_HASH_OK(hash) && LIBSHA_CTX_OK(hash))
 V_REQUIRES(size == 0 || __CPROVER_r_ok(message, size))
-V_LH_ASSIGNS(g_up_calls, g_up_fn, g_up_ctx, g_up_msg, g_up_len; hash->type->type == 0: __CPROVER_object_upto(hash->ctx, sizeof(SHA_CTX)); hash->type->type == 1: __CPROVER_object_upto(hash->ctx, sizeof(sha256_ctx)); hash->type->type == 2 || hash->type->type == 3: __CPROVER_object_upto(hash->ctx, sizeof(sha512_ctx)); zck != NULL: zck->error_state)
+V_LH_ASSIGNS(g_up_calls, g_up_fn, g_up_ctx, g_up_end, g_up_inorder, g_up_len; hash->type->type == 0: __CPROVER_object_upto(hash->ctx, sizeof(SHA_CTX)); hash->type->type == 1: __CPROVER_object_upto(hash->ctx, sizeof(sha256_ctx)); hash->type->type == 2 || hash->type->type == 3: __CPROVER_object_upto(hash->ctx, sizeof(sha512_ctx)); zck != NULL: zck->error_state)
 V_GHOST_LH(2, hash, message, size)
 V_ENSURES(__CPROVER_return_value == SPEC_HASH_VALID(hash->type->type)) /*@C18.lib_hash_update.succeeds_iff_known_type*/
-V_ENSURES(!__CPROVER_return_value || (g_up_calls == V_OLD(g_up_calls) + 1 && g_up_fn == LIBSHA_FN(hash->type->type) && g_up_ctx == hash->ctx && g_up_msg == (const void *)message)) /*@C18.lib_hash_update.dispatch_per_type_same_ctx_same_message*/
-V_ENSURES(!__CPROVER_return_value || g_up_len == size) /*@C18.lib_hash_update.length_passed_unchanged*/
+V_ENSURES(!__CPROVER_return_value || size == 0 || (g_up_fn == LIBSHA_FN(hash->type->type) && g_up_ctx == hash->ctx)) /*@C18.lib_hash_update.dispatch_per_type_same_ctx*/
+V_ENSURES(!__CPROVER_return_value || !(V_OLD(g_up_inorder) && V_OLD(g_up_end) == message) || (g_up_inorder && g_up_end == message + size)) /*@C18.lib_hash_update.every_byte_fed_once_in_order*/
+V_ENSURES(!__CPROVER_return_value || g_up_len == V_OLD(g_up_len) + size) /*@C18.lib_hash_update.length_passed_unchanged*/
 V_ENSURES(__CPROVER_return_value || g_up_calls == V_OLD(g_up_calls)) /*@C18.lib_hash_update.no_update_on_failure*/
 V_ENSURES(!__CPROVER_return_value || LIBSHA_CTX_OK(hash)) /*@C18.lib_hash_update.context_stays_well_formed*/
 ;
